@@ -456,6 +456,7 @@ func c10Main(c *hx.Ctx) {
 		}
 	}
 	c10CodecHistories(c, pristine)
+	c10ParamHistories(c, pristine)
 	c10Objects(c)
 	c.Sample(map[string]any{"syntaxes": len(c10Syntaxes()), "solo_cache": len(s.soOC)})
 }
@@ -544,6 +545,113 @@ func c10CodecHistories(c *hx.Ctx, pristine map[string]reflect.Value) {
 					c10Fail(c, hx.Failure{Class: "c10-codec-object-history-dec-" + sy.Name, What: "Decode on the registered codec object differs from a fresh codec object after a history of other frame descriptions",
 						Input: in, Expected: "identical bytes (" + dwoc[:2] + ")", Actual: doc[:2]})
 				}
+			}
+		}
+	}
+}
+
+// c10ParamSettings: explicit parameter settings per codec kind (name/value pairs applied with SetParameter to a
+// fresh GetDefaultParameters object); every setting differs from the codec's configured default.
+func c10ParamSettings(kind, name string) [][2]any {
+	switch kind {
+	case "baseline", "extended":
+		return [][2]any{{"quality", 35}, {"quality", 97}, {"quality", 5}}
+	case "jpegll":
+		if name == "jpeg57" {
+			return [][2]any{{"predictor", 4}, {"predictor", 7}, {"predictor", 2}}
+		}
+	case "jls":
+		if name == "jls81" {
+			return [][2]any{{"near", 5}, {"near", 1}, {"near", 9}}
+		}
+	case "j2k":
+		if name == "j2k91" || name == "j2k93" {
+			return [][2]any{{"numLevels", 2}, {"rate", 40}, {"numLayers", 3}, {"irreversible", false}, {"allowMCT", false}}
+		}
+		return [][2]any{{"numLevels", 2}, {"numLayers", 3}, {"allowMCT", false}, {"progressionOrder", 2}}
+	case "htj2k":
+		return [][2]any{{"numLevels", 2}, {"blockWidth", 32}, {"quality", 40}}
+	}
+	return nil
+}
+
+// c10ParamHistories: ONE codec object (the registered singleton) is called with EXPLICIT parameters that differ
+// from its configured defaults, then with nil parameters, then with an untouched default-parameters object, and
+// every output is compared byte for byte with what a fresh codec object gives for that same call in isolation:
+// "output frame i depends only on input frame i, the frame description and the parameters - not on earlier
+// calls made on the same codec".
+func c10ParamHistories(c *hx.Ctx, pristine map[string]reflect.Value) {
+	reg := dcodec.GetGlobalRegistry()
+	for _, sy := range c10Syntaxes() {
+		cd, ok := reg.GetCodec(sy.TS)
+		if !ok || c10FreshCodec(pristine, sy.Name) == nil {
+			continue
+		}
+		settings := c10ParamSettings(sy.Kind, sy.Name)
+		if len(settings) == 0 {
+			continue
+		}
+		// parameters are always built from a fresh clone so that neither run shares a parameters object
+		mk := func(set *[2]any, dflt bool) dcodec.Parameters {
+			if set == nil && !dflt {
+				return nil
+			}
+			p := c10FreshCodec(pristine, sy.Name).GetDefaultParameters()
+			if set != nil && p != nil {
+				p.SetParameter(set[0].(string), set[1])
+			}
+			return p
+		}
+		type call struct {
+			set  *[2]any
+			dflt bool
+		}
+		var calls []call
+		for k := range settings {
+			calls = append(calls, call{&settings[k], false}, call{nil, false}, call{nil, true})
+		}
+		infos := []c10Info{{16, 12, 1, 8, 8}, {9, 7, 3, 8, 8}}
+		if sy.MaxBits > 8 && sy.Name != "jpeg51" {
+			infos = append(infos, c10Info{16, 12, 1, 16, sy.MaxBits})
+		}
+		hist := []string{}
+		for step, cl := range calls {
+			i := infos[step%len(infos)]
+			f := c10Frame(c.R, i, step%6)
+			desc := "nil"
+			if cl.set != nil {
+				desc = fmt.Sprintf("%v=%v", cl.set[0], cl.set[1])
+			} else if cl.dflt {
+				desc = "defaults-object"
+			}
+			in := map[string]any{"ts": sy.Name, "step": step, "info": i.String(), "params": desc, "history": fmt.Sprint(hist), "seed": c.Seed}
+			got, oc := c10Run(cd, true, i, [][]byte{f}, mk(cl.set, cl.dflt))
+			want, woc := c10Run(c10FreshCodec(pristine, sy.Name), true, i, [][]byte{f}, mk(cl.set, cl.dflt))
+			c.Eval(fmt.Sprintf("param-history|%s|%d|enc", sy.Name, step), step > 0)
+			c.Count("param-history")
+			hist = append(hist, desc)
+			same := oc[:2] == woc[:2] && len(got) == len(want)
+			for k := 0; same && k < len(got); k++ {
+				same = bytes.Equal(got[k], want[k])
+			}
+			if !same {
+				c10Fail(c, hx.Failure{Class: "c10-codec-object-param-history-enc-" + sy.Name, What: "Encode on the registered codec object differs from a fresh codec object after earlier calls with other parameters",
+					Input: in, Expected: "identical bytes (" + woc[:2] + ")", Actual: oc[:2]})
+				continue
+			}
+			if oc != "ok" {
+				c.Count("param-history-rejected:" + sy.Name)
+				continue
+			}
+			dgot, doc := c10Run(cd, false, i, got, nil)
+			dwant, dwoc := c10Run(c10FreshCodec(pristine, sy.Name), false, i, want, nil)
+			same = doc[:2] == dwoc[:2] && len(dgot) == len(dwant)
+			for k := 0; same && k < len(dgot); k++ {
+				same = bytes.Equal(dgot[k], dwant[k])
+			}
+			if !same {
+				c10Fail(c, hx.Failure{Class: "c10-codec-object-param-history-dec-" + sy.Name, What: "Decode on the registered codec object differs from a fresh codec object after earlier calls with other parameters",
+					Input: in, Expected: "identical bytes (" + dwoc[:2] + ")", Actual: doc[:2]})
 			}
 		}
 	}
